@@ -37,8 +37,9 @@ META = {
              "a single Once holder, Shutdown only after every processing call returned, children and handler closed only after Shutdown returned, each exactly once, never a send on a closed channel "
              "(Properties/ExecCascade); in the product model of the whole tree (Model/ExecNet) under every global schedule: a child's or handler's Shutdown begins only after its parent's Shutdown has "
              "returned (tree_cascade_any_global_schedule), no closed channel is ever sent on or closed twice anywhere (tree_no_panic_any_global_schedule), nothing is left in any channel at quiescence "
-             "(tree_drained_any_global_schedule). Source shape pinned by skeleton equalities for runNode, startWorkers, Execute, waitTimeout, superviseSource, Shutdown. Real runs are judged by sequence stamps.",
-        note="Trusted as C01, plus H-async. Liveness (Execute does return; a global schedule reaching quiescence exists) is observed on real runs (watchdog), not proved.",
+             "(tree_drained_any_global_schedule), and the drain cannot get stuck: once the source has finished either every node is terminal or some worker can take a step "
+             "(tree_drain_cannot_get_stuck). Source shape pinned by skeleton equalities for runNode, startWorkers, Execute, waitTimeout, superviseSource, Shutdown. Real runs are judged by sequence stamps.",
+        note="Trusted as C01, plus H-async. Progress (no deadlock) is proved; that the enabled steps are eventually taken (fair scheduler, node code returns) is observed on real runs (watchdog), not proved.",
     ),
     "C04": dict(
         text="Proof: ledger invariants of the component model under every interleaving: offered = enqueued + dropped (counting form), nothing is ever dropped at a non-discarding target, every drop "
